@@ -282,3 +282,13 @@ FullSync<'static, ItemType, OgreAllocatorType, BUFFER_SIZE, MAX_STREAMS> {
     type ItemType            = ItemType;
     type DerivedItemType     = OgreArc<ItemType, OgreAllocatorType>;
 }
+
+#[cfg(feature = "verif")]
+impl<'a, ItemType: Send + Sync + Debug + 'static, OgreAllocatorType: BoundedOgreAllocator<ItemType> + crate::verif::VerifState + 'static + Sync + Send, const BUFFER_SIZE: usize, const MAX_STREAMS: usize>
+crate::verif::VerifState for FullSync<'a, ItemType, OgreAllocatorType, BUFFER_SIZE, MAX_STREAMS> {
+    fn verif_state(&self, out: &mut Vec<u64>) {
+        self.streams_manager.verif_state(out);
+        self.allocator.verif_state(out);
+        for dispatcher_manager in self.dispatcher_managers.iter() { dispatcher_manager.verif_state(out) }
+    }
+}
